@@ -5,15 +5,16 @@ reg("C03", "every offered covariance model is a valid positive-definite model",
          "PRNG draws nvar 1-3 with a PSD sill matrix (full rank / rank one / diagonal), ranges 0.5-50 with anisotropy "
          "ratios 0.2-5, 1 or 3 rotation angles, 1-3 summed structures, the construction route (Model::createFromParam / "
          "CovAniso setters / CovAniso::create*), and a point set (grid, grid along the rotated axes, random, clustered, "
-         "collinear; spacing 0.02-5 ranges; n*nvar <= 72, thorough <= 360). In-domain = CovFactory::getCovList contains "
+         "collinear; spacing 0.02-5 ranges; n*nvar <= 72, thorough <= 360; every 4th draw is one variable on a grid along the "
+         "rotated axes with a mesh of 0.4-1.6 or 0.1-0.5 ranges, every 3rd draw adds a pair of points 1e-7..1e-3 ranges apart). In-domain = CovFactory::getCovList contains "
          "the name and CovAniso::isConsistent(); out-of-domain pairs are requested through the public factories and must "
          "be refused or pass the same checks; sphere-only structures must not be in-domain. distinct = distinct "
          "(structure, ndim, nvar, parameter class, layout, number of structures, route) with at least one oracle evaluated",
     level="exploration",
     require=dict(distinct=400,
                  oracles=dict(quick={"pd": 800, "cpd": 250, "closed-form": 500, "closed-form-axis": 2000,
-                                     "closed-form-incr": 200, "vario-mode": 1500, "sym-rect": 1500, "bound": 900,
-                                     "support-out": 1500, "range-axis": 250, "gate-sphere": 200, "model-eval": 1500},
+                                     "closed-form-incr": 200, "vario-mode": 1200, "sym-rect": 1200, "bound": 800,
+                                     "support-out": 1500, "range-axis": 250, "gate-sphere": 200, "model-eval": 1200},
                               thorough={"pd": 6000, "cpd": 3000, "closed-form": 4000, "closed-form-axis": 16000,
                                         "closed-form-incr": 2000, "vario-mode": 9000, "sym-rect": 9000,
                                         "bound": 6000, "support-out": 9000, "range-axis": 1800,
